@@ -191,7 +191,9 @@ class Windows(core.Layer):
 
 
 def layers(tier, seed):
-    both = (0.0, 777.7)
+    # coordinate offsets of the molecule inside its own (longer) molecule coordinate system: none, a fraction, and one that exceeds the
+    # length of every reference (the labelled span is still an interior window)
+    both = (0.0, 777.7, 3000000.3)
     if tier == 'quick':
         ls = (15, 16, 23, 30, 45)
         return [Windows('ref0', reference(0), ls, both, False, product=False), Windows('ref1', reference(1), ls, both, False, product=False),
@@ -199,7 +201,7 @@ def layers(tier, seed):
                 Windows('seed-ref', reference(0, seed % 50), (15, 45), both, False, product=False),
                 Correlation('S1:correlation', [reference(0), reference('dense')], (15, 29, 36, 45), 4)]
     ls = tuple(range(15, 46))
-    out = [Windows('ref%d' % k, reference(k), ls, both if k < 2 else (777.7,), True, optional=k >= 3) for k in range(8)]
+    out = [Windows('ref%d' % k, reference(k), ls, both if k < 2 else (777.7, 3000000.3), True, optional=k >= 3) for k in range(8)]
     out.insert(2, Windows('dense-head', reference('dense'), ls, both, True, max_start=12))
     out.insert(4, Windows('seed-ref', reference(0, seed % 50), ls, (777.7,), True))
     out.insert(0, Correlation('S1:correlation', [reference(k) for k in range(4)] + [reference('dense')], tuple(range(15, 46, 3)) + (29, 44), 2))
